@@ -5,7 +5,9 @@ derivative ratios, piecewise polynomials, Newton-Girard sums, ArcKernel with an 
 Index / Multitask / LCM kernels; part "args": the constructor-argument lattice - every optional documented constructor argument
 of every kernel over its non-default value classes; DistinctOK: no multi-valued parameter with two equal entries; part "dims": every argument / convention that names a DIMENSION
 of a stacked tensor - dim of sum_interaction_terms over every batch position, last_dim_is_batch of Kernel.__call__ / covar_dist, the kernel dimension of
-Additive / Product structure and Newton-Girard kernels - with 0..2 batch axes and pairwise distinct axis sizes in every order; exact kind "sitdim").
+Additive / Product structure and Newton-Girard kernels - with 0..2 batch axes and pairwise distinct axis sizes in every order; exact kind "sitdim"; part "rel": how x1 and x2 relate as tensor
+objects - views (offset, shape, strides) of one abstract memory: same object, equal clone, views of one storage with other strides / offsets / shape, transposed, expanded -
+for every kernel family; a kernel may take x1 for x2 only when they are equal by value, which address + shape do not decide: RelOK).
 Replay: every lattice cell through the real kernel against the documented formula (checks/c05_ref.py), both code paths of the
 two-path kernels; TLC's exact rationals through the real kernels.  Level "other": reference-formula comparison on a
 TLC-enumerated lattice; only the rational parts are decided exactly."""
@@ -183,7 +185,7 @@ def _worker(item):
     out = []
     for c in item["cases"]:
         fn = dict(cell=run_cell, expr=run_expr, polygrad=run_polygrad, rbfratio=run_rbfratio, pp=run_pp, ng=run_ng, layout=run_layout, special=run_special, arcmask=run_arcmask,
-                  mtask=run_mtask, dim=run_dim, sitdim=run_sitdim)[c["kind"]]
+                  mtask=run_mtask, dim=run_dim, sitdim=run_sitdim, rel=run_rel)[c["kind"]]
         r = fn(torch, gpytorch, c)
         out.extend(r if isinstance(r, list) else [r])
     return out
@@ -783,6 +785,145 @@ def run_dim(torch, gpytorch, c):
     return res
 
 
+def rel_desc(cell, exp):
+    return "%s%s comp=%s%s rel=%s (x1: offset %d shape %s strides %s; x2: offset %d shape %s strides %s%s) %s%s" % (
+        cell["fam"], " ARD" if cell["ard"] else "", cell["comp"], " last_dim_is_batch" if cell["ldb"] else "", cell["rel"], exp["v1"]["off"], list(exp["v1"]["shape"]), list(exp["v1"]["st"]),
+        exp["v2"]["off"], list(exp["v2"]["shape"]), list(exp["v2"]["st"]), "; the same object" if exp["sameobj"] else "", cell["mode"],
+        " via kernel(A)[%s, %s]" % (":".join(map(str, exp["sl1"])), ":".join(map(str, exp["sl2"]))) if cell["how"] == "lazy" else "")
+
+
+def run_rel(torch, gpytorch, c):
+    """a cell of part "rel" of Kernels.tla: x1 and x2 are the two VIEWS of the spec (built with the ordinary slicing / transposing / expanding
+    operations, geometry asserted against the spec); the reference is the documented formula on fresh contiguous copies of the rows read
+    through the spec's element maps"""
+    import warnings
+    from checks import c05_ref as R
+    cell, exp, seed = c["cell"], c["exp"], c["seed"]
+    fam, rel, mode, how, ldb = cell["fam"], cell["rel"], cell["mode"], cell["how"], cell["ldb"]
+    n, C = int(exp["n"]), int(exp["cols"])
+    desc = rel_desc(cell, exp) + " seed=%d" % seed
+    res = dict(key=["rel", cell], ok=True, nontrivial=True, case=c)
+    lcell = dict(fam=fam, d=cell["d"], ard=cell["ard"], adims=False, comp=cell["comp"], batch="none", mode="gt", force="none", path=None)
+    if fam == "rff":
+        lcell.update(arg="num_samples", val="4", effect="formula", dflt="4")
+    g = torch.Generator().manual_seed(seed)
+    tree, d_in = R.cell_tree(lcell, g)
+    dup = R.tree_dups(tree)
+    if dup:
+        return dict(machinery="C05 rel instance with equal entries in a multi-valued parameter (%s) for %s" % (dup, desc))
+    vocab = tree.get("P", {}).get("vocab", R.HAMMING_VOCAB)
+    A = R.sample_inputs(fam, d_in, [], 2 * n, g, vocab)
+    fresh = R.sample_inputs(fam, d_in, [], n, g, vocab)
+    if list(A.shape) != [2 * n, C]:
+        return dict(machinery="C05 rel cell: the base array has shape %s, the spec says %s: %s" % (list(A.shape), [2 * n, C], desc))
+    B = fresh.clone()
+    for r, src in enumerate(exp["copy"]):
+        if int(src) >= 0:
+            B[r] = A[int(src)]
+    mem = torch.cat([A, B]).reshape(-1)                                  # the abstract memory of the spec
+    sh1, sh2 = [int(v) for v in exp["v1"]["shape"]], [int(v) for v in exp["v2"]["shape"]]
+    ref1 = mem[torch.tensor([int(e) for e in exp["e1"]])].reshape(sh1).clone()
+    ref2 = mem[torch.tensor([int(e) for e in exp["e2"]])].reshape(sh2).clone()
+    At, Bt = A.clone(), B.clone()                                       # two storages
+    x1 = At[:n]
+    if rel == "same":
+        x2 = x1
+    elif rel == "alias":
+        x2 = At[:n]
+    elif rel in ("clone", "lastrow", "fresh"):
+        x2 = Bt
+    elif rel == "sclone":
+        x1, x2 = At[::2], Bt
+    elif rel == "stride":
+        x2 = At[::2]
+    elif rel == "offset":
+        x2 = At[n:]
+    elif rel == "overlap":
+        x2 = At[1:n + 1]
+    elif rel == "prefix":
+        x2 = At[:n - 1]
+    elif rel == "transpose":
+        x2 = x1.t()
+    elif rel == "expand":
+        x2 = At[0:1].expand(n, C)
+    elif rel == "colstride":
+        Wd = At.view(n, 2 * C)
+        x1, x2 = Wd[:, :C], Wd[:, ::2]
+    elif rel == "batchexp":
+        x1, x2 = At.view(2, n, C), At[:n].expand(2, n, C)
+    else:
+        raise core.Machinery("unknown relation %r" % rel)
+    for x, v, ref, nm in ((x1, exp["v1"], ref1, "x1"), (x2, exp["v2"], ref2, "x2")):
+        inB = x.untyped_storage().data_ptr() == Bt.untyped_storage().data_ptr()
+        off = int(v["off"]) - (2 * n * C if inB else 0)
+        if inB != (int(v["off"]) >= 2 * n * C) or [x.storage_offset(), list(x.shape), list(x.stride())] != [off, [int(t) for t in v["shape"]], [int(t) for t in v["st"]]] or not torch.equal(x, ref):
+            return dict(machinery="C05 rel cell: %s built as offset %d shape %s strides %s, the spec says %s: %s" % (nm, x.storage_offset(), list(x.shape), list(x.stride()), v, desc))
+    facts = dict(sameobj=x1 is x2, sameptr=x1.data_ptr() == x2.data_ptr(), sameshape=x1.shape == x2.shape, samestrides=x1.stride() == x2.stride())
+    if any(bool(exp[k]) != v for k, v in facts.items()) or (exp["valeq"] and not torch.equal(x1, x2)):
+        return dict(machinery="C05 rel cell: the tensors relate as %s, the spec says %s: %s" % (facts, {k: exp[k] for k in facts}, desc))
+    if not exp["valeq"] and x1.shape == x2.shape and torch.equal(x1, x2):
+        res["nontrivial"] = False                                       # one-hot rows may coincide by chance
+    sigtail = "rel-%s-%s%s-%s%s" % (rel, cell["comp"], "-ldb" if ldb else "", mode, "-lazy" if how == "lazy" else "")
+    rt = 1e-7 if fam == "sm" else RTOL
+    if ldb:
+        want = torch.stack(R.dim_terms(fam, tree["P"], ref1, ref2), dim=-3)
+    else:
+        want = None
+    runs = [torch.float32, torch.float64] if fam == "ngadd" else [None]
+    kw = {"last_dim_is_batch": True} if ldb else {}
+
+    def call():
+        with warnings.catch_warnings():
+            warnings.simplefilter("ignore")
+            kernel = R.build_tree(gpytorch.kernels, tree)
+            if how == "lazy":
+                s1, s2 = [int(t) for t in exp["sl1"]], [int(t) for t in exp["sl2"]]
+                return _dense(kernel(At)[slice(*s1), slice(*s2)])
+            if mode == "diag":
+                return _dense(kernel(x1, x2, diag=True, **kw))
+            return _dense(kernel(x1, x2, **kw))
+    for dflt in runs:
+        prev = torch.get_default_dtype()
+        try:
+            if dflt is not None:
+                torch.set_default_dtype(dflt)
+            ok, got = core.guarded(call)
+        finally:
+            torch.set_default_dtype(prev)
+        if not ok:
+            res.update(ok=False, sig="C05/%s/raises/%s" % (fam, sigtail), detail="%s: kernel evaluation raised %s" % (desc, got))
+            return res
+        if want is None:                                                # after the first evaluation: RFFKernel's frequencies are read back from the kernel
+            want = R.ref_tree(tree, ref1, ref2)
+        wd = want.diagonal(dim1=-1, dim2=-2) if mode == "diag" else want
+        if not torch.isfinite(wd).all():
+            return dict(machinery="C05 reference not finite for %s" % desc)
+        if list(got.shape) != list(wd.shape):
+            res.update(ok=False, sig="C05/%s/shape/%s" % (fam, sigtail), detail="%s: result has shape %s, documented %s" % (desc, list(got.shape), list(wd.shape)))
+            return res
+        tol = (2e-6, 1e-9) if dflt is torch.float32 else (rt, ATOL)
+        if is_kink(lcell):
+            # coincident rows of x1 and x2: the code takes the root of a squared distance that may carry rounding ~1e-16, i.e. r ~ 1e-8 instead of 0
+            if mode == "diag":
+                ok, why = core.close(got, wd, 1e-7, 1e-9)
+            else:
+                dm = (ref1.unsqueeze(-2) == ref2.unsqueeze(-3)).all(-1)
+                m = got.shape[-1] // dm.shape[-1]
+                dm = dm.repeat_interleave(m, -1).repeat_interleave(m, -2).expand(got.shape)
+                ok, why = core.close(got.masked_fill(dm, 0.0), wd.masked_fill(dm, 0.0), *tol)
+                if ok:
+                    ok, why = core.close(got.masked_fill(~dm, 0.0), wd.masked_fill(~dm, 0.0), 1e-7, 1e-9)
+        else:
+            ok, why = core.close(got, wd, *tol)
+        if not ok:
+            res.update(ok=False, sig="C05/%s/value/%s" % (fam, sigtail),
+                       detail="%s: kernel value differs from the documented covariance function of the rows of x1 and x2: %s" % (desc, why))
+            return res
+    if seed % 97 == 0:
+        res["sample"] = dict(rel_cell=desc, shape=list(want.shape), first_entry=float(want.reshape(-1)[0]))
+    return res
+
+
 def run_special(torch, gpytorch, c):
     from checks import c05_ref as R
     D = torch.float64
@@ -836,6 +977,12 @@ def run_special(torch, gpytorch, c):
 
 
 # ---------------------------------------------------------------------------------------------
+def fams_with_shortcut():
+    """kernels whose forward (or the distance helper it calls) tests whether x1 equals x2: grep torch.equal / x1_eq_x2 in gpytorch/kernels"""
+    return {"linear", "sdelta", "rff", "hamming", "sm", "rbf", "matern05", "matern15", "matern25", "rq", "periodic", "cosine", "pp0", "pp1", "pp2", "pp3",
+            "rbfgrad", "matern52grad", "rbfgradgrad", "gskl", "arc", "cyl"}
+
+
 def _plain(v):
     if isinstance(v, dict):
         return {k: _plain(x) for k, x in v.items()}
@@ -860,7 +1007,12 @@ def run(ck):
                "NewtonGirardAdditive kernels) x number of batch axes 0..2 x how many of them the kernel parameters carry x position of the stacked axis (sum_interaction_terms: "
                "every dim in -(3 + nb) .. -3) x max_degree class (None, 1, 2, K-1, K, K+2) x mode (n1 != n2, x2=None, diag) x rotation of the size assignment (all axis sizes "
                "pairwise distinct, every ordered pair of axes in increasing size in some cell: DimsOK), compared with the explicit sum over index subsets of the documented "
-               "one-dimensional terms along the NAMED dimension and with the documented output shape; exact = rational "
+               "one-dimensional terms along the NAMED dimension and with the documented output shape; rel cells = every kernel family (26, ARD where offered, the two-path kernels "
+               "also without) x composition (plain; Product; Scale / Sum for the kernels with their own x1-equals-x2 test; additive structure; last_dim_is_batch) x how x1 and x2 relate "
+               "as tensor OBJECTS (same object, second view with the same geometry, equal clone contiguous / with other strides, clone differing in the last row, fresh values, "
+               "stepped / shifted / overlapping / shorter row views of one storage, transposed view of a square input, stride-0 expanded row, stepped columns, batch-expanded "
+               "view) x (direct call, diag=True where x1 == x2 as documented, the views kernel(A)[rows, cols] builds lazily), the views of Kernels.tla part rel built with the "
+               "ordinary slicing operations (geometry asserted against the spec) and compared with the documented formula on fresh copies of the rows; exact = rational "
                "instances evaluated by TLC; non-trivial = every lattice cell (distinct by cell) and every exact instance with a composite expression / derivative / d >= 2")
     ck.assumptions = [
         "level 'other': the numeric dimension is sampled (seeded inputs and parameters), only the configuration lattice and the rational instances are exhaustive / exact",
@@ -891,6 +1043,9 @@ def run(ck):
         "entrywise), `dim` over the BATCH positions only (docstring: 'the batch dimension containing the base covariance matrices', negative); last_dim_is_batch=True is read as documented "
         "in Kernel.__call__: K one-dimensional kernels (dimension t with entry t of every ARD parameter) stacked as ... x K x N x M (... x K x N with diag); the kernel batch shape is a "
         "suffix of the input batch shape",
+        "rel cells: diag=True only where x1 equals x2 by value (documented precondition of Kernel.__call__); the transposed / column-stepped relations regroup elements into new rows and "
+        "are not built for kernels with a per-row input domain (Hamming one-hot, GaussianSymmetrizedKL [mean, log variance], Cylindrical unit ball); index expressions on lazily "
+        "evaluated derivative kernels belong to C06",
         "not replayed: GridKernel / GridInterpolationKernel / InducingPointKernel (approximations, C09 / C02), MultiDeviceKernel (CUDA), KeOps kernels (excluded by the quantifier), the deprecated "
         "param_transform / batch_size arguments",
     ]
@@ -900,12 +1055,12 @@ def run(ck):
     half = len(insts) // 2
     jobs = []
     for name, part, ii, inv in (("lattice", "lattice", (), ["LatticeOK"]), ("layout", "layout", (), ["LayoutOK"]), ("exactA", "exact", insts[:half], ["ExactOK", "DistinctOK"]),
-                                ("exactB", "exact", insts[half:], ["ExactOK", "DistinctOK"]), ("ppcode", "ppcode", pps, ["PPCodeOK"]), ("args", "args", (), ["ArgsOK"]), ("dims", "dims", (), ["DimsOK"])):
+                                ("exactB", "exact", insts[half:], ["ExactOK", "DistinctOK"]), ("ppcode", "ppcode", pps, ["PPCodeOK"]), ("args", "args", (), ["ArgsOK"]), ("dims", "dims", (), ["DimsOK"]), ("rel", "rel", (), ["RelOK"])):
         mod, cfg = write_mc(wd, name, part, ii, inv)
         jobs.append(((mod, cfg), dict(name=PID + "/" + name, dump=True, check=False, workers=2, timeout=1500, coverage=False)))
     rs = tlc.run_many(jobs, parallel=3)
     labels = ("configuration lattice + dispatch predicate", "derivative-kernel layout", "exact rational instances A", "exact rational instances B", "piecewise polynomial: code transcription vs documentation",
-              "constructor-argument lattice", "named-dimension lattice (pairwise distinct axis sizes)")
+              "constructor-argument lattice", "named-dimension lattice (pairwise distinct axis sizes)", "input-relationship lattice (x1 and x2 as views of one memory)")
     for lab, r in zip(labels, rs):
         ck.add_tlc(r, "Kernels " + lab)
         if r.violation:
@@ -944,6 +1099,16 @@ def run(ck):
             ck.vacuous("named-dimension lattice: target %s never has size(%s) < size(%s)" % (tgt, miss[0][0], miss[0][1]))
     if not any(c["tgt"] == "sit" and e["dim"] != -3 and e["inshape"][-3] < e["K"] and c["md"] in ("none", "over") for c, e in dimcells):
         ck.vacuous("no sum_interaction_terms cell stacks more base covariances along dim != -3 than dimension -3 holds")
+    relcells = [(dict(st["c"]), _plain(st["out"])) for st in rs[7].states()]
+    relcells.sort(key=lambda ce: sorted((k, str(v)) for k, v in ce[0].items()).__repr__())
+    rel_fams = {c["fam"] for c, _ in relcells}
+    if len(relcells) < 1000 or not fams_with_shortcut() <= rel_fams:
+        ck.vacuous("input-relationship lattice: %d cells, kernels with an x1-equals-x2 test that are not enumerated: %s" % (len(relcells), sorted(fams_with_shortcut() - rel_fams)))
+    for fam in sorted(rel_fams):         # every family meets a pair of DIFFERENT views with the same address and shape, an equal tensor at another address, and a lazily built pair
+        mine = [(c, e) for c, e in relcells if c["fam"] == fam]
+        if not any(e["sameptr"] and e["sameshape"] and not e["valeq"] for c, e in mine) or not any(e["valeq"] and not e["sameptr"] for c, e in mine) \
+                or not any(e["sameptr"] and not e["sameshape"] for c, e in mine):
+            ck.vacuous("input-relationship lattice: %s never meets (same address and shape, different values) / (equal values, other storage) / (same address, other shape)" % fam)
     layout = [(dict(st["c"]), _plain(st["out"])) for st in rs[1].states()]
     if len(layout) != 54:
         ck.vacuous("layout lattice has %d cells instead of 54" % len(layout))
@@ -970,6 +1135,9 @@ def run(ck):
     for k, (cell, exp) in enumerate(dimcells):
         for s in range(seeds):
             cases.append(dict(kind="dim", cell=cell, exp=exp, seed=(ck.seed * 7919 + len(cells) + len(argcells) + k) * 4 + s))
+    for k, (cell, exp) in enumerate(relcells):
+        for s in range(seeds):
+            cases.append(dict(kind="rel", cell=cell, exp=exp, seed=(ck.seed * 7919 + len(cells) + len(argcells) + len(dimcells) + k) * 4 + s))
     fams = {c["fam"] for c in cells}
     two = [c for c in cells if c["fam"] in ("rbf", "matern05", "matern15", "matern25")]
     for fam in ("rbf", "matern05", "matern15", "matern25"):
@@ -992,6 +1160,10 @@ def run(ck):
     ck.extra["constructor_argument_pairs"] = ["%s.%s in {%s}" % (f, a, ", ".join(sorted({c["val"] for c in argcells if (c["fam"], c["arg"]) == (f, a)}))) for f, a in sorted(pairs)]
     ck.section("named_dimensions", cells=len(dimcells), **{t: sum(1 for c, _ in dimcells if c["tgt"] == t) for t in sorted(dim_targets)},
                sit_cells_dim_not_default=sum(1 for c, e in dimcells if c["tgt"] == "sit" and e["dim"] != -3), max_batch_axes=max(c["nb"] for c, _ in dimcells))
+    ck.section("input_relationships", cells=len(relcells), families=len(rel_fams), relations=len({c["rel"] for c, _ in relcells}),
+               same_address_and_shape_not_equal=sum(1 for c, e in relcells if e["sameptr"] and e["sameshape"] and not e["valeq"]),
+               equal_in_other_storage=sum(1 for c, e in relcells if e["valeq"] and not e["sameptr"]), lazily_sliced=sum(1 for c, _ in relcells if c["how"] == "lazy"),
+               last_dim_is_batch=sum(1 for c, _ in relcells if c["ldb"]))
     ck.section("exact", rational_instances=len(insts), **{k: sum(1 for i in insts if i["kind"] == k) for k in ("expr", "polygrad", "rbfratio", "pp", "ng", "arcmask", "mtask", "sitdim")}, layout_cells=len(layout))
     ck.extra["trusted_base"] = ["checks/c05_ref.py (documented formulas in plain torch / mpmath)", "torch.autograd (reference derivatives)", "TLC + Rational.tla / LinAlg.tla"]
 
